@@ -5,6 +5,7 @@ import (
 	"encoding/json"
 	"fmt"
 	"math"
+	"math/big"
 	"strconv"
 	"strings"
 
@@ -608,25 +609,40 @@ func (exec *Executor) executeDecimalMethod(
 		}
 	}
 
-	// Round to the scale.
-	ratio := math.Pow10(scale)
-	rounded := math.Round(num*ratio) / ratio
-
-	// Count the digits before the decimal point; for a value below one,
-	// count down the zeros that follow the point instead.
-	numStr := strings.TrimPrefix(strconv.FormatFloat(rounded, 'f', -1, 64), "-")
-	intPart, fracPart, _ := strings.Cut(numStr, ".")
-	count := len(intPart)
-	if intPart == "0" {
-		count = 0
-		for count < len(fracPart) && fracPart[count] == '0' {
-			count++
-		}
-		count = -count
+	// Round to the scale, half away from zero, with exact arithmetic:
+	// multiplying a float64 by a power of ten and dividing again loses bits
+	// (99.decimal(3,20) gave 99.00000000000001) and overflows for large scales.
+	pow := new(big.Int).Exp(big.NewInt(10), big.NewInt(int64(max(scale, -scale))), nil)
+	scaled := new(big.Rat).SetFloat64(num)
+	if scale >= 0 {
+		scaled.Mul(scaled, new(big.Rat).SetInt(pow))
+	} else {
+		scaled.Quo(scaled, new(big.Rat).SetInt(pow))
 	}
+	half := big.NewRat(1, 2)
+	if scaled.Sign() < 0 {
+		half.Neg(half)
+	}
+	scaled.Add(scaled, half)
+	digits := new(big.Int).Quo(scaled.Num(), scaled.Denom()) // truncates toward zero
 
 	// Make sure it's got no more than precision digits.
-	if rounded != 0 && count > precision-scale {
+	if digits.Sign() != 0 && len(new(big.Int).Abs(digits).String()) > precision {
+		return 0, fmt.Errorf(
+			`%w: argument "%v" of jsonpath item method %v is invalid for type %v`,
+			ErrVerbose, value, op, "numeric",
+		)
+	}
+
+	// The float64 nearest to digits / 10^scale.
+	result := new(big.Rat)
+	if scale >= 0 {
+		result.SetFrac(digits, pow)
+	} else {
+		result.SetInt(digits.Mul(digits, pow))
+	}
+	rounded, _ := result.Float64()
+	if math.IsInf(rounded, 0) {
 		return 0, fmt.Errorf(
 			`%w: argument "%v" of jsonpath item method %v is invalid for type %v`,
 			ErrVerbose, value, op, "numeric",
